@@ -577,6 +577,12 @@ func (*GlobalWindow).processRow
   modifies *
   observe fire := shouldFire
   observe built := buildResult
+  count delivered := deliver
+  count fedOut := feedAggs
+  count fedTrig := feedTriggerAggs
+  before shouldFire row-is-fed-exactly-once-before-the-predicate-is-tested: $fedOut == 1 && $fedTrig == 1
+  ensures fires-whenever-the-predicate-holds: $fire ==> $delivered == 1
+  ensures at-most-one-result-per-row: $delivered <= 1
   before deliver fires-only-when-the-predicate-holds: $fire
   before deliver delivers-the-result-built-for-this-group: $arg1 == $built
   before deliver group-is-purged-before-delivery: !dom(gw.groups, key)
